@@ -158,6 +158,10 @@ func MakeDataset(rng *rand.Rand, id string, o DatasetOpts) *Dataset {
 		d := Dense(rng, o.Rows, 6, 64)
 		d.ID = id
 		return d
+	case "rare-values":
+		d := RareValues(o.Rows)
+		d.ID = id
+		return d
 	case "gb-product":
 		d := GroupProduct(rng, o.Rows)
 		d.ID = id
@@ -538,6 +542,23 @@ func GroupProduct(rng *rand.Rand, rows int) *Dataset {
 		}
 		if i%6 != 3 {
 			r["m"] = val("m", i*11+i/300, 300)
+		}
+		ds.Rows = append(ds.Rows, r)
+	}
+	ds.Index()
+	return ds
+}
+
+// RareValues: every row position 0..rows-1 is the first (or only) row of some value that occurs on one to seven rows:
+// a unique column, a column whose values sit on two rows half the dataset apart, and one whose values sit on seven
+// consecutive rows. Whatever a writer or reader does differently for rare values meets every row id here.
+func RareValues(rows int) *Dataset {
+	ds := &Dataset{Unique: "id"}
+	half := rows / 2
+	for i := 0; i < rows; i++ {
+		r := oracle.Row{"id": fmt.Sprintf("n%d", i), "pair": fmt.Sprintf("p%d", i%half), "k": []string{"x", "y", "z"}[i%3]}
+		if i%2 == 0 {
+			r["seven"] = fmt.Sprintf("s%d", i/14)
 		}
 		ds.Rows = append(ds.Rows, r)
 	}
